@@ -29,7 +29,7 @@ def jobs(tier):
     if tier == "quick":
         sh = sched.shapes(2, maxtop=3, maxleaves=3, always=True)
     else:
-        sh = sched.shapes(3, maxtop=3, maxleaves=4, always=True)
+        sh = sched.thorough_shapes(always=True)
     sweep = [("C05", s, "sweep") for s in [("L",), ("L", "L"), (("D", True, ("L",)),), (("D", False, ("L", "L")),)]]
     return [("C05", s) for s in sh] + sharded(sweep, 8)
 
